@@ -291,11 +291,38 @@ def soap_inplace(repo):
     raise TranslateError('Soap11.serialize: unrecognised body construction')
 
 
+def subclasses_rec(repo):
+    fn = find_function(_parse(repo, 'spyne/model/complex.py'), ['ComplexModelBase', 'get_subclasses'])
+    want = ['retval = []', 'subca = cls.Attributes._subclasses',
+            'if subca is not None:\n    retval.extend(subca)\n    for subc in subca:\n        retval.extend(subc.get_subclasses())',
+            'return retval']
+    if [_u(s) for s in _stmts(fn)] != want:
+        raise TranslateError('get_subclasses: not the recursion over every direct subclass: %r' % [_u(s) for s in _stmts(fn)])
+    return True
+
+
+def flat_fresh(repo):
+    tree = _parse(repo, 'spyne/model/complex.py')
+    fn = find_function(tree, ['ComplexModelBase', 'get_flat_type_info'])
+    if [_u(s) for s in _stmts(fn)] != ['return _get_flat_type_info(cls, TypeInfo())']:
+        raise TranslateError('get_flat_type_info: not a fresh TypeInfo per class')
+    inner = find_function(tree, ['_get_flat_type_info'])
+    got = [_u(s) for s in _stmts(inner)]
+    core = [t for t in got if t.startswith(('parent =', 'if not parent', 'retval.update(', 'return '))]
+    if sorted(core) != sorted(["parent = getattr(cls, '__extends__', None)",
+                               'if not parent is None:\n    _get_flat_type_info(parent, retval)',
+                               'retval.update(cls._type_info)', 'return retval']) or got[-1] != 'return retval':
+        raise TranslateError('_get_flat_type_info: unrecognised accumulator handling %r' % (got,))
+    if [a.arg for a in inner.args.args] != ['cls', 'retval']:
+        raise TranslateError('_get_flat_type_info: unrecognised signature')
+    return True
+
+
 def generate(repo):
     b = lambda x: 'true' if x else 'false'
     orig, same, isinst = gpt(repo)
     vals = [flat_parent_first(repo), xml_parent_first(repo), orig, same, isinst, sub_same_ns(repo),
-            type_decl(repo), type_keep(repo), xsi_guard(repo), memberless_base(repo), soap_inplace(repo)]
+            type_decl(repo), type_keep(repo), xsi_guard(repo), memberless_base(repo), soap_inplace(repo), subclasses_rec(repo), flat_fresh(repo)]
     text = ('(** GENERATED by harness/translate/c16shape.py from the working tree; do not edit. *)\n'
             'From SpyneV Require Import C16.Model.\n'
             'Definition shape_src : xshape := mkshape %s.\n'
